@@ -214,6 +214,12 @@ func execC13(t *testing.T, plan *h.Plan, trace bool) *h.Result {
 		if _, err := loc.AddRule(ctx(), "canaryrule", core.Map{"when": map[string]interface{}{"pattern": map[string]interface{}{"canarypulse": "?x"}}, "action": map[string]interface{}{"code": "'canary-fired'"}}); err != nil {
 			panic(err)
 		}
+		// a second bystander rule whose condition uses the variable its `when` binds:
+		// hostile events that carry "a" reach it with whatever they put there
+		if _, err := loc.AddRule(ctx(), "canaryrule2", core.Map{"when": map[string]interface{}{"pattern": map[string]interface{}{"a": "?x"}},
+			"condition": map[string]interface{}{"pattern": map[string]interface{}{"canary": "?x"}}, "action": map[string]interface{}{"code": "'canary2-fired'"}}); err != nil {
+			panic(err)
+		}
 		// (the base rules' condition asks for a fact with "b": make it hold, so that their actions run)
 		if _, err := loc.AddFact(ctx(), "condfact", core.Map{"b": "z"}); err != nil {
 			panic(err)
@@ -265,6 +271,11 @@ func execC13(t *testing.T, plan *h.Plan, trace bool) *h.Result {
 				if n != 1 {
 					fail("poisoned", "canary-event", "after %s, the canary rule fired %d times for its event (values %v)", after, n, fr.Values)
 				}
+			})
+			guard("canary:Query", func() {
+				// an ordinary two-step query over whatever is stored right now (the
+				// hostile item included): it may find nothing, it must come back
+				loc.Query(ctx(), `{"and":[{"pattern":{"a":"?x"}},{"pattern":{"n":"?x"}}]}`)
 			})
 			guard("canary:RemFact", func() { loc.RemFact(ctx(), "canary2") })
 		}
